@@ -69,6 +69,7 @@ type AtLock struct {
 // value runs T's method (the interface method itself is specified as result == UF(self, args...)).
 type DispatchRule struct {
 	Iface, Method, UF string
+	ForType           string // `dispatch IFACE.METHOD UF for T`: the rule holds for every interface value holding a T
 }
 
 type PureFn struct {
@@ -421,11 +422,15 @@ func (db *ContractDB) parseContractText(file, text, defaultPkg string) error {
 			cur.AtLocks = append(cur.AtLocks, al)
 		case "dispatch":
 			f := strings.Fields(c.rest)
-			if cur == nil || len(f) != 2 || !strings.Contains(f[0], ".") {
-				return fmt.Errorf("%s:%d: bad dispatch clause (dispatch IFACE.METHOD UF)", file, c.line)
+			if cur == nil || !(len(f) == 2 || (len(f) == 4 && f[2] == "for")) || !strings.Contains(f[0], ".") {
+				return fmt.Errorf("%s:%d: bad dispatch clause (dispatch IFACE.METHOD UF [for TYPE])", file, c.line)
 			}
 			k := strings.LastIndex(f[0], ".")
-			cur.Dispatch = append(cur.Dispatch, DispatchRule{Iface: f[0][:k], Method: f[0][k+1:], UF: f[1]})
+			dr := DispatchRule{Iface: f[0][:k], Method: f[0][k+1:], UF: f[1]}
+			if len(f) == 4 {
+				dr.ForType = f[3]
+			}
+			cur.Dispatch = append(cur.Dispatch, dr)
 		case "ghostmap":
 			// ghostmap NAME int|bool|int2|bool2
 			f := strings.Fields(c.rest)
